@@ -144,6 +144,8 @@ class Runner:
         self.wrote = {}          # session -> set of line texts it reported writing (C03)
         self.neigh = {}          # (session, normalised text) -> (normalised text above, below) when the session wrote it
         self.commit_ok = []      # per commit step: did git create a commit?
+        self.appended_after = {} # path -> uids of lines that were the unterminated last line of a file kept without
+                                 # a final newline when text was appended after them (known finding, append half)
         self.was_last = {}       # path -> uids that were, at some point, the last line of a file kept
                                  # without a final newline (their line ending changes when lines are
                                  # added or removed below them)
@@ -158,8 +160,15 @@ class Runner:
         if op == "edit":
             path, who = st["path"], st["who"]
             old = {l[2]: l for l in self.ghost.get(path, [])}
-            self.ghost[path] = [list(l) for l in st["lines"]]
+            prev = self.ghost.get(path, [])
             o = self.opts(path)
+            if prev and st["lines"] and not o.get("final_newline", True):
+                # the unterminated last line is still there and is no longer the last line: text was appended
+                # after it (it gained a terminating newline)
+                uids = [l[2] for l in st["lines"]]
+                if prev[-1][2] in uids and uids[-1] != prev[-1][2]:
+                    self.appended_after.setdefault(path, set()).add(prev[-1][2])
+            self.ghost[path] = [list(l) for l in st["lines"]]
             if st["lines"] and not o.get("final_newline", True):
                 self.was_last.setdefault(path, set()).add(st["lines"][-1][2])
             r.write(path, content_of(st["lines"], o.get("final_newline", True), o.get("crlf", False)))
